@@ -191,6 +191,8 @@ type Consumer struct {
 	Left    bool
 	Rtmp    *world.RtmpPeer
 	Http    *world.HttpPeer
+	Rtsp    *world.RtspPeer
+	RtpPkts int // rtsp: interleaved RTP packets received so far
 	Recv    []Recv
 	Err     string // framing / decoding error of the byte stream itself
 	flvHdr  bool
@@ -313,6 +315,8 @@ func (x *X) Join(kind string) (*Consumer, error) {
 		c.Http, err = x.W.HttpSub("/"+x.App+"/"+x.Stream+".flv", true)
 	case "ts":
 		c.Http, err = x.W.HttpSub("/"+x.App+"/"+x.Stream+".ts", false)
+	case "rtsp":
+		c.Rtsp, err = x.W.RtspPlayer("rtsp://h/"+x.App+"/"+x.Stream, nil)
 	default:
 		panic("consumer kind " + kind)
 	}
@@ -328,6 +332,8 @@ func (x *X) Leave(c *Consumer) error {
 	c.Left = true
 	if c.Rtmp != nil {
 		c.Rtmp.Close()
+	} else if c.Rtsp != nil {
+		c.Rtsp.Close()
 	} else {
 		c.Http.Close()
 	}
@@ -365,6 +371,29 @@ func (x *X) pump(c *Consumer) {
 		}
 		if c.Rtmp.DecErr != nil && c.Err == "" {
 			c.Err = "rtmp chunk stream: " + c.Rtmp.DecErr.Error()
+		}
+	case c.Rtsp != nil:
+		for _, it := range c.Rtsp.Pump() {
+			if it.IsMsg {
+				continue
+			}
+			switch {
+			case it.Channel < 0 || it.Channel > 3:
+				if c.Err == "" {
+					c.Err = fmt.Sprintf("interleaved frame on channel %d, which was never set up", it.Channel)
+				}
+			case it.Channel%2 == 0:
+				if len(it.Data) < 12 || it.Data[0]>>6 != 2 {
+					if c.Err == "" {
+						c.Err = fmt.Sprintf("interleaved frame on RTP channel %d does not hold an RTP packet (% x)", it.Channel, it.Data[:minInt(len(it.Data), 16)])
+					}
+				} else {
+					c.RtpPkts++
+				}
+			}
+		}
+		if c.Rtsp.Err != nil && c.Err == "" {
+			c.Err = "rtsp interleaved stream: " + c.Rtsp.Err.Error()
 		}
 	case c.Kind == "ts":
 		c.Http.Pump()
@@ -472,3 +501,10 @@ func EnsureSdf(p []byte) []byte {
 
 var _ = binary.BigEndian
 var _ = strings.Join
+
+func minInt(a, b int) int {
+	if a < b {
+		return a
+	}
+	return b
+}
